@@ -13,6 +13,8 @@
 //     Y000:<n>          pop_n(cb, reverse_cb, n)    (compensating: pushes fillers >= 1000000 when empty)
 //     D<cwk>            drain: try_pop<c,k> until every producer thread has finished and the queue is empty
 //     A000:<ms>         let virtual time pass
+//     H<cwk>:<v>        push<c,w,k>(v) with a slow callback: holding its index unpublished it lets virtual time pass
+//                       until a timed pop (U) has returned, as long as one is still to return
 // stdout: one line per case: <case-id> ok steps=<n> pre=<n> | <per-op results> | <monitor verdicts>
 //   per-op result: <count>[:<v.v.v>]   (values popped by the op, in callback order)
 #include "shim/prelude.h"
@@ -90,7 +92,7 @@ int main(int argc, char** argv) {
           std::vector<std::string> parts; { std::stringstream s3(o); std::string p; while (std::getline(s3, p, ':')) parts.push_back(p); }
           auto list = [&](const std::string& s) { std::vector<uint64_t> r; std::stringstream s4(s); std::string x; while (std::getline(s4, x, ';')) if (!x.empty()) r.push_back(strtoull(x.c_str(), 0, 10)); return r; };
           switch (op.k) {
-            case 'P': case 'p': op.vals = list(parts.at(1)); op.n = 1; break;
+            case 'P': case 'p': case 'H': op.vals = list(parts.at(1)); op.n = 1; break;
             case 'N': case 'n': case 'X': if (parts.size() > 1) op.vals = list(parts[1]); op.n = op.vals.size(); break;
             case 'O': case 'o': op.n = 1; break;
             case 'M': case 'm': case 'Y': op.n = strtoul(parts.at(1).c_str(), 0, 10); break;
@@ -118,18 +120,28 @@ int main(int argc, char** argv) {
     }
     cells.clear(); m_excl = m_state = m_publish = true; filler = 1000000;
     size_t producers = 0, producers_done = 0;
-    for (auto& th : threads) { bool p = false; for (auto& o : th) if (strchr("PpNnX", o.k)) p = true; producers += p; }
+    // H = a blocking push whose callback is slow: having claimed its index it lets virtual time pass (1 ms at a time)
+    // until a timed pop has RETURNED, as long as one is still to return.  A timed pop returns by its deadline whatever
+    // the producers do, so this always ends - unless the timed pop sleeps without a deadline on the unpublished index.
+    size_t u_done = 0, u_left = 0;
+    for (auto& th : threads) for (auto& o : th) if (o.k == 'U') u_left++;
+    for (auto& th : threads) { bool p = false; for (auto& o : th) if (strchr("PpNnXH", o.k)) p = true; producers += p; }
     std::vector<std::function<void()>> bodies;
     for (size_t t = 0; t < threads.size(); ++t) {
       bodies.push_back([&, t] {
         bool is_producer = false;
-        for (auto& o : threads[t]) if (strchr("PpNnX", o.k)) is_producer = true;
+        for (auto& o : threads[t]) if (strchr("PpNnXH", o.k)) is_producer = true;
         for (size_t i = 0; i < threads[t].size(); ++i) {
           Op& op = threads[t][i];
           op.b = verif::stamp(); op.t0 = verif::now_ns();
           size_t vi = 0;
           auto wr1 = [&](uint64_t& s) { cb_write(s, op.vals[vi++]); };
           auto rd1 = [&](uint64_t& s) { op.popped.push_back(cb_read(s)); };
+          auto wrh = [&](uint64_t& s) {
+            size_t snap = u_done;
+            while (u_done == snap && u_left > 0) verif::advance_time(1000000ull);
+            cb_write(s, op.vals[vi++]);
+          };
           auto wrn = [&](IT b, IT e) {   // all cells of the range are held at once
             std::vector<uint64_t*> ps; for (IT it = b; it != e; ++it) ps.push_back(&*it);
             for (auto p : ps) { Cell& c = cells[p]; if (c.busy) m_excl = false; if (c.full) m_state = false; c.busy++; }
@@ -149,6 +161,9 @@ int main(int argc, char** argv) {
           switch (op.k) {
 #define CALL(C, W, K) q.push<C, W, K>(wr1)
             case 'P': DISPATCH3(op.fl, CALL); op.cnt = 1; break;
+#undef CALL
+#define CALL(C, W, K) q.push<C, W, K>(wrh)
+            case 'H': DISPATCH3(op.fl, CALL); op.cnt = 1; break;
 #undef CALL
 #define CALL(C, W, K) q.pop<C, W, K>(rd1)
             case 'O': DISPATCH3(op.fl, CALL); op.cnt = 1; break;
@@ -176,6 +191,7 @@ int main(int argc, char** argv) {
               struct timespec ts = {(time_t)(ns / 1000000000ull), (long)(ns % 1000000000ull)};
               if (op.fl & 1) op.cnt = q.try_pop_n_exclusively_until<true>(rdn, op.n, &ts);
               else op.cnt = q.try_pop_n_exclusively_until<false>(rdn, op.n, &ts);
+              u_done++; u_left--;
             } break;
             case 'X': {
               auto rc = [&](IT b, IT e) { rdn(b, e); };
@@ -263,10 +279,10 @@ int main(int argc, char** argv) {
       for (auto& kv : pc) { if (kv.second > 1) counts = false; if (!oc.count(kv.first)) conserve = false; }
     }
     for (auto op : all) {   // reported counts agree with the callbacks that ran
-      if (strchr("PNpnX", op->k) && op->cnt != op->pushed_cnt) counts = false;
+      if (strchr("PNpnXH", op->k) && op->cnt != op->pushed_cnt) counts = false;
       if (strchr("OMomUY", op->k) && op->cnt != op->popped.size() - 0 && op->k != 'Y') counts = false;
       if (op->k == 'Y' && op->popped.size() != op->n) counts = false;
-      if (strchr("PONMXY", op->k) && op->cnt != op->n) counts = false;
+      if (strchr("PONMXYH", op->k) && op->cnt != op->n) counts = false;
       if (op->cnt > op->n && !strchr("DA", op->k)) counts = false;
     }
     {
@@ -301,6 +317,7 @@ int main(int argc, char** argv) {
         // the program lets pass explicitly (A ops) plus 50 ns per scheduling point of the run (< 2 ms)
         uint64_t slack = 2000000ull;
         for (auto x : all) if (x->k == 'A') slack += (uint64_t)x->arg * 1000000ull;
+        for (auto x : all) if (x->k == 'H') slack += 40000000ull;   // a slow callback lets 1 ms pass per scheduling point
         if (op->t1 - op->t0 > tmo + slack) timed = false;
         long long size_at = 0;
         for (auto x : all) if (x != op && x->k != 'A' && x->e < op->b) size_at += (long long)x->pushed_cnt + (long long)x->injected.size() - (long long)x->popped.size();
@@ -308,14 +325,46 @@ int main(int argc, char** argv) {
         // case completed later pushes are not yet poppable (the property allows a short count when an op overlaps)
         bool push_overlaps = false;
         for (auto x : all)
-          if (x != op && strchr("PpNnXY", x->k) && x->b != 0 && x->b < op->e && (!x->done || x->e > op->b)) push_overlaps = true;
+          if (x != op && strchr("PpNnXYH", x->k) && x->b != 0 && x->b < op->e && (!x->done || x->e > op->b)) push_overlaps = true;
         long long want = std::min<long long>((long long)op->n, size_at);
         if (!push_overlaps && (long long)op->cnt < want) avail = false;
       }
     }
-    printf("%s ok steps=%llu pre=%llu | %s | excl=%d state=%d publish=%d conserve=%d nodup=%d counts=%d fifo=%d tryjust=%d timed=%d avail=%d left=%zu\n",
+    // ready prefix (single popping thread, no compensating variants): the pops of that thread in program order, then the
+    // final drain, list the values in index order.  A timed pop that starts at position p must deliver at least the
+    // leading values of that order whose push had returned before the call began (min with num): they were published.
+    bool prefix = true;
+    {
+      int tc = -1; bool single = true;
+      for (size_t t = 0; t < threads.size(); ++t)
+        for (auto& o : threads[t]) {
+          if (strchr("XY", o.k)) single = false;
+          if (strchr("OoMmUD", o.k)) { if (tc >= 0 && tc != (int)t) single = false; tc = (int)t; }
+        }
+      if (single && tc >= 0) {
+        std::map<uint64_t, const Op*> pusher;
+        for (auto& e : pushes) pusher[e.v] = e.op;
+        std::vector<uint64_t> seq;
+        for (auto& o : threads[tc]) for (auto v : o.popped) seq.push_back(v);
+        for (auto v : left) seq.push_back(v);
+        size_t p = 0;
+        for (auto& o : threads[tc]) {
+          if (o.k == 'U' && o.done) {
+            size_t m = 0;
+            while (m < o.n && p + m < seq.size()) {
+              auto it = pusher.find(seq[p + m]);
+              if (it == pusher.end() || !it->second->done || !(it->second->e < o.b)) break;
+              m++;
+            }
+            if (o.cnt < m) prefix = false;
+          }
+          p += o.popped.size();
+        }
+      }
+    }
+    printf("%s ok steps=%llu pre=%llu | %s | excl=%d state=%d publish=%d conserve=%d nodup=%d counts=%d fifo=%d tryjust=%d timed=%d avail=%d prefix=%d left=%zu\n",
            id, (unsigned long long)r.steps, (unsigned long long)r.preemptions, out.c_str(), m_excl, m_state, m_publish,
-           conserve, nodup, counts, fifo, tryjust, timed, avail, left.size());
+           conserve, nodup, counts, fifo, tryjust, timed, avail, prefix, left.size());
     fflush(stdout);
     delete qp;
   }
